@@ -1417,6 +1417,27 @@ fn oracle_c19(plan: &ServerPlan, obs: &ServerObs, seed: u64) -> RunResult {
         }
         let a = o.sent_ms;
         let b = o.replies.first().map_or(a + m.listen_ms, |(t, _)| *t);
+        // "keeps answering throughout": a server that only consults local data
+        // answers a datagram at once, reload or no reload - in virtual time, within
+        // the two network delays (nothing is in flight that could hold the
+        // configuration lock for longer than the swap itself)
+        if !plan.knobs.forwarding && m.proto == "udp" {
+            if let Some((t, _)) = o.replies.first() {
+                let one_way = plan.knobs.params.get("net.latency.min_ms").copied().unwrap_or(1)
+                    + plan.knobs.params.get("net.latency.max_extra_ms").copied().unwrap_or(0);
+                let bound = 2 * one_way + 2;
+                if t.saturating_sub(a) > bound {
+                    let during = loads.iter().skip(1).any(|(at, _)| *at <= *t && *at + 2_000 > a);
+                    res.violations.push(
+                        Violation::new("c19.reply_held_up")
+                            .fact("around_a_reload", during)
+                            .detail(json!({
+                                "message": m.what, "sent_ms": a, "reply_ms": t, "bound_ms": bound,
+                            })),
+                    );
+                }
+            }
+        }
         let hi = swap_from.iter().filter(|s| **s <= b).count() - 1;
         let lo = (0..versions.len()).rev().find(|k| quiesce_of[*k] <= a).unwrap_or(0);
         let mut last: Vec<Violation> = Vec::new();
